@@ -8,6 +8,11 @@ import ArrModel.C08
 import ArrModel.Reorder
 import ArrModel.C13
 import ArrModel.Joining
+import ArrModel.IndexExt
+import ArrModel.C10
+import ArrModel.C19Pipe
+import ArrModel.C14Ext
+import ArrModel.C15
 import Driver.Proto
 /-!
 # Driver.C09 — outcome protocol
@@ -15,6 +20,12 @@ import Driver.Proto
 Case lines `C09.<class>.<Trait>.<method> <receiver shape> <tokens…>` (see `harness/src/bin/c09.rs`).
 * `m`: the model of the operation is run on the tag array of that shape; the answer is its outcome class.
 * `b`: the shared broadcasting funnel `Arr.broadcast` is run against every operand shape of the case.
+* `m` lines of the operations modelled by other properties (round 5): `slice` / `indices_at` (`ArrModel/IndexExt.lean`),
+  `repeat(counts, None)` (`Arr.repeatFlat`, C13), `vdot` / `inner` / `dot` / `matmul` (C14: `dotFull`, `matmul`, `inner`, `vdot`),
+  `det` / `qr` / `solve` / `norm` (C15: `detArr`, `qrArr`, `solveArr`, `normArr`), and the option NAME arguments of sort /
+  argsort (table parser of `parse_kind` and `Sort.sort` / `Sort.argsort` with the text, which must agree), pack_bits /
+  unpack_bits (`C19.packBits` / `unpackBits` on the crate's own `apply_along_axis` model), compare (table parser, then the
+  broadcasting funnel), norm (table parser of `to_ord`, then `normArr`), convolve (table parser of `to_mode`).
 * `u`: not modelled — constant `err` (class only);  `o` → `open`;  `n`, `t` → `total`.
 * `p`: `liftR` on an error receiver, provided the regenerated table says the body is the delegation.
 * `opt`: the table-driven parsers;  `inv`: coverage accounting from the regenerated inventory.
@@ -123,6 +134,107 @@ def runModel (key : String) (s : List Nat) (t : List String) : Option String :=
   | "ArrayCreate.create", [n, sh, nd] => do let n ← parseNat? n; let sh ← parseNatList? sh; let nd ← optNat? nd; some (cls (Arr.create (List.replicate n (7 : Int)) sh nd))
   | _, _ => none
 
+/-! ### round 5: operations modelled by other properties, option names through the operations -/
+
+def tagNat (shape : List Nat) : Arr Nat := ⟨(List.range shape.prod).map (· % 2), shape⟩
+def tagRat (shape : List Nat) : Arr Rat := ⟨(List.range shape.prod).map (fun i => ((i + 1 : Nat) : Rat)), shape⟩
+
+/-- the table parser of the named option on a hex token, `&str` or `String` impl -/
+def parseOption (p : OptionParser) (h fl : String) : Option (Res Parsed) := do
+  let txt ← unhex? h
+  some (if fl == "string" then parseString lowerRust p txt else parseStr lowerRust p txt)
+
+/-- the table parser and the hand-written parser inside the owning model must refuse the same texts -/
+def agreeing (table : Res Parsed) (modelRefuses : Bool) (ans : String) : String :=
+  if table.isErr != modelRefuses then "model-disagree: option table vs the parser inside the operation model" else ans
+
+def ordOf : Res Parsed → Option C15.Ord
+  | .ok (.int _ v) => some (.int v)
+  | .ok (.ctor 1) => some .inf
+  | .ok (.ctor 2) => some .negInf
+  | .ok (.ctor 3) => some .fro
+  | .ok (.ctor 4) => some .nuc
+  | _ => none
+
+/-- option names as text through the operations; `none` = not such a line -/
+def runOption (key : String) (s : List Nat) (t : List String) : Option String :=
+  match key, t with
+  | "ArraySort.sort", [ax, h, fl] =>
+    if h == "none" || fl == "enum" then none else do
+      let ax ← optInt? ax; let txt ← unhex? h; let tb ← parseOption sortKind h fl
+      let ka := Sort.KindArg.str (lowerRust txt)
+      some (agreeing tb (Sort.resolveKind ka).isErr (cls (Sort.sort Sort.Cmp.int 0 (tagArr s) ax ka)))
+  | "ArraySort.argsort", [ax, h, fl] =>
+    if h == "none" || fl == "enum" then none else do
+      let ax ← optInt? ax; let txt ← unhex? h; let tb ← parseOption sortKind h fl
+      let ka := Sort.KindArg.str (lowerRust txt)
+      some (agreeing tb (Sort.resolveKind ka).isErr (cls (Sort.argsort Sort.Cmp.int 0 (tagArr s) ax ka)))
+  | "ArrayBinaryBits.pack_bits", [ax, h, fl] =>
+    if h == "none" || fl == "enum" then none else do
+      let ax ← optInt? ax; let txt ← unhex? h; let tb ← parseOption bitOrder h fl
+      let sp := C19.Spelling.text txt
+      some (agreeing tb (C19.toBitOrder sp).isErr (cls (C19.packBits C19.alongPipe (tagNat s) ax (some sp))))
+  | "ArrayBinaryBits.unpack_bits", [ax, cnt, h, fl] =>
+    if h == "none" || fl == "enum" then none else do
+      let ax ← optInt? ax; let cnt ← optInt? cnt; let txt ← unhex? h; let tb ← parseOption bitOrder h fl
+      let sp := C19.Spelling.text txt
+      some (agreeing tb (C19.toBitOrder sp).isErr (cls (C19.unpackBits C19.alongPipe (tagNat s) ax cnt (some sp))))
+  | "ArrayStringCompare.compare", [o, h, fl] =>
+    if fl == "enum" then none else do
+      let tb ← parseOption compareOp h fl
+      let o ← parseNatList? o
+      match tb with
+      | .ok _ => some (cls ((tagArr s).broadcast (tagArr o)))
+      | r => some (cls r)
+  | "ArrayMathMisc.convolve", [_, h, fl] =>
+    if fl == "enum" then none else do
+      let tb ← parseOption convolveMode h fl
+      some (cls tb)
+  | _, _ => none
+
+def runNorm (s : List Nat) (t : List String) : Option String :=
+  let go (h ax kd fl : String) : Option String := do
+    let ax ← optIntList? ax
+    let keep := kd == "true"
+    if h == "none" then some (cls (C15.normArr (tagRat s) none ax keep))
+    else if fl == "enum" then some (cls (C15.normArr (tagRat s) (some .fro) ax keep))
+    else do
+      let tb ← parseOption normOrd h fl
+      match tb with
+      | .ok _ => do let o ← ordOf tb; some (cls (C15.normArr (tagRat s) (some o) ax keep))
+      | r => some (cls r)
+  match t with
+  | [h, ax] => go h ax "none" "str"
+  | [h, ax, kd] => go h ax kd "str"
+  | [h, ax, kd, fl] => go h ax kd fl
+  | _ => none
+
+/-- operations whose models live in other properties' files -/
+def runForeign (key : String) (s : List Nat) (t : List String) : Option String :=
+  let a := tagArr s
+  match key, t with
+  | "ArrayIndexing.slice", [x, y] => do let x ← parseNat? x; let y ← parseNat? y; some (cls (a.slice x y))
+  | "ArrayIndexing.indices_at", [i] => do let i ← parseNatList? i; some (cls (a.indicesAt i))
+  | "ArrayTiling.repeat", [r, "none"] => do let r ← parseNatList? r; some (cls (a.repeatFlat r))
+  | "ArrayLinalgProducts.vdot", [v] => do let v ← parseNatList? v; some (cls (C14.vdot a (tagArr v)))
+  | "ArrayLinalgProducts.inner", [v] => do let v ← parseNatList? v; some (cls (C14.inner a (tagArr v)))
+  | "ArrayLinalgProducts.dot", [v] => do let v ← parseNatList? v; some (cls (C14.dotFull a (tagArr v)))
+  | "ArrayLinalgProducts.matmul", [v] => do let v ← parseNatList? v; some (cls (C14.matmul a (tagArr v)))
+  | "ArrayLinalgNorms.det", [] => some (cls (C15.detArr (tagRat s)))
+  | "ArrayLinalgDecompositions.qr", [] => some (cls (C15.qrArr (tagRat s)))
+  | "ArrayLinalgSolvingInvertingProducts.solve", [v] => do let v ← parseNatList? v; some (cls (C15.solveArr (tagRat s) (tagRat v)))
+  | "ArrayLinalgNorms.norm", t => runNorm s t
+  | _, _ => none
+
+/-- `m`: option-name lines first, then the operations of this file, then the models of the other properties -/
+def runModelAll (key : String) (s : List Nat) (t : List String) : Option String :=
+  match runOption key s t with
+  | some r => some r
+  | none =>
+    match runForeign key s t with
+    | some r => some r
+    | none => runModel key s t
+
 /-- `b`: every operand shape among the tokens against the receiver through `Arr.broadcast` -/
 def runBroadcast (s : List Nat) (t : List String) : String :=
   let a := tagArr s
@@ -186,7 +298,7 @@ def handleBase (parts : List String) (args : List String) : Option String :=
     some (showParsed (if fl == "string" then parseString lowerRust p s else parseStr lowerRust p s))
   | ["C09", "p", tr, m], [_, e] => propagate (tr ++ "." ++ m) e
   | ["C09", "ea", tr, m], _ :: e :: _ => propagate (tr ++ "." ++ m) e
-  | ["C09", "m", tr, m], s :: t => do let s ← parseNatList? s; runModel (tr ++ "." ++ m) s t
+  | ["C09", "m", tr, m], s :: t => do let s ← parseNatList? s; runModelAll (tr ++ "." ++ m) s t
   | ["C09", "b", _, _], s :: t => do let s ← parseNatList? s; some (runBroadcast s t)
   | ["C09", "u", _, _], _ => some "err class-only"
   | ["C09", "o", _, _], _ => some "open"
